@@ -427,7 +427,7 @@ func Run(p Prop, cfg Config) (*Output, error) {
 		}
 		runs[i] = runCase(p, ops)
 		for _, r := range runs[i].res {
-			if r.Fail != "" {
+			if _, isKnown := known[r.Sig]; r.Fail != "" && !isKnown {
 				failing++
 				break
 			}
